@@ -1,9 +1,1394 @@
-//! C05 — (stub; not built yet)
+//! C05 — ArcSwap's accounting and caps hold under every thread interleaving.
+//!
+//! The real `coupe::ArcSwap` (vertex weights `i64`, edge weights `i64`, `sprs::CsMatView`)
+//! runs under a CONTROLLED SCHEDULER built on `coupe::verif_hooks`: every worker blocks
+//! before each shared-memory access of the move loop (lock CAS / load / store, part load /
+//! store) and at task begin / end; exactly one worker is released at a time. The sequence
+//! of released workers is the schedule, the sequence of accesses with the values read or
+//! written is the trace.
+//!
+//! ops (tokens separated by blanks, sections by the token `;`):
+//! * `ctl <n> <threads> <imb> ; <indptr> ; <indices> ; <data> ; <weights> ; <parts> ; <sched pass 1> ; <sched pass 2> ; …`
+//!   replay of an explicit schedule (task ids). Entries naming a task that does not exist
+//!   or has ended are skipped; when the list of a pass is exhausted the lowest unfinished
+//!   task runs. `<imb>` = `none` | f64 bits in hex.
+//!   out: `ok T=<thread_count> ipt=<items_per_thread> ids=<a,b,…> md=<9 counters> tr=<trace>`
+//!   trace tokens: `P<pass>`, `<task>:B|E|C<v>+|C<v>-|L<v>=<0|1>|U<v>|R<v>=<p>|W<v>=<p>`.
+//! * `seq <n> <imb> ; indptr ; indices ; data ; weights ; parts`  one worker, no observer.
+//!   out: `ok ids=<…> md=<…>`
+//! * `free <n> <threads> <imb> ; …` free-running threads, oracle only (the model declines).
+//!
+//! Oracle (independent of the model): valid ids, cut_out = cut_in - edge_cut_gain,
+//! edge_cut_gain >= 0, load_out[p] <= max(load_in[p], cap), move_count >= #relabelled and,
+//! from the trace, no two adjacent vertices validated-held / moved concurrently.
 
 use crate::common::*;
+use coupe::verif_hooks::{self as vh, Ev};
+use coupe::Partition as _;
+use std::cell::Cell;
+use std::collections::{BTreeMap, BTreeSet};
+use std::sync::mpsc;
+use std::sync::{Arc, Condvar, Mutex};
+use std::time::Duration;
 
-pub fn generate(_ctx: &mut Ctx) {}
+// ------------------------------------------------------------------ instances
+
+#[derive(Clone, Debug)]
+struct Inst {
+    n: usize,
+    threads: usize,
+    imb: Option<f64>,
+    indptr: Vec<usize>,
+    indices: Vec<usize>,
+    data: Vec<i64>,
+    weights: Vec<i64>,
+    parts: Vec<usize>,
+}
+
+impl Inst {
+    fn row(&self, v: usize) -> impl Iterator<Item = (usize, i64)> + '_ {
+        (self.indptr[v]..self.indptr[v + 1]).map(move |k| (self.indices[k], self.data[k]))
+    }
+    fn body(&self) -> String {
+        format!(
+            "; {} ; {} ; {} ; {} ; {}",
+            join(&self.indptr),
+            join(&self.indices),
+            join(&self.data),
+            join(&self.weights),
+            join(&self.parts)
+        )
+    }
+    fn imb_tok(&self) -> String {
+        match self.imb {
+            None => "none".into(),
+            Some(x) => format!("{:x}", x.to_bits()),
+        }
+    }
+    fn ctl_op(&self, sched: &[Vec<usize>]) -> String {
+        let mut s = format!("ctl {} {} {} {}", self.n, self.threads, self.imb_tok(), self.body());
+        for p in sched {
+            s.push_str(" ;");
+            if !p.is_empty() {
+                s.push(' ');
+                s.push_str(&join(p));
+            }
+        }
+        norm(&s)
+    }
+    fn seq_op(&self) -> String {
+        norm(&format!("seq {} {} {}", self.n, self.imb_tok(), self.body()))
+    }
+    fn free_op(&self) -> String {
+        norm(&format!("free {} {} {} {}", self.n, self.threads, self.imb_tok(), self.body()))
+    }
+    fn from_edges(
+        n: usize,
+        threads: usize,
+        imb: Option<f64>,
+        edges: &BTreeMap<(usize, usize), i64>,
+        weights: Vec<i64>,
+        parts: Vec<usize>,
+    ) -> Inst {
+        let mut indptr = vec![0usize];
+        let mut indices = vec![];
+        let mut data = vec![];
+        for v in 0..n {
+            for (&(a, b), &w) in edges.range((v, 0)..(v + 1, 0)) {
+                debug_assert_eq!(a, v);
+                indices.push(b);
+                data.push(w);
+            }
+            indptr.push(indices.len());
+        }
+        Inst { n, threads, imb, indptr, indices, data, weights, parts }
+    }
+    fn symmetric(&self) -> bool {
+        for v in 0..self.n {
+            for (u, w) in self.row(v) {
+                if !self.row(u).any(|(x, y)| x == v && y == w) {
+                    return false;
+                }
+            }
+        }
+        true
+    }
+    fn cut(&self, ids: &[usize]) -> i64 {
+        let mut c = 0;
+        for v in 0..self.n {
+            for (u, w) in self.row(v) {
+                if u < v && ids[u] != ids[v] {
+                    c += w;
+                }
+            }
+        }
+        c
+    }
+}
+
+fn norm(s: &str) -> String {
+    s.split_whitespace().collect::<Vec<_>>().join(" ")
+}
+
+fn sections(op: &str) -> Vec<Vec<&str>> {
+    let mut out = vec![vec![]];
+    for t in op.split_whitespace() {
+        if t == ";" {
+            out.push(vec![]);
+        } else {
+            out.last_mut().unwrap().push(t);
+        }
+    }
+    out
+}
+
+fn nums<T: std::str::FromStr>(v: &[&str]) -> Option<Vec<T>> {
+    v.iter().map(|t| t.parse().ok()).collect()
+}
+
+fn parse_imb(t: &str) -> Option<Option<f64>> {
+    if t == "none" {
+        return Some(None);
+    }
+    if t.is_empty() || t.len() > 16 || !t.chars().all(|c| c.is_ascii_hexdigit()) {
+        return None;
+    }
+    let x = f64::from_bits(u64::from_str_radix(t, 16).ok()?);
+    if x.is_finite() && (0.0..=4.0).contains(&x) {
+        Some(Some(x))
+    } else {
+        None
+    }
+}
+
+/// Parse the instance part shared by the three op kinds. `head` = tokens of the
+/// first section after the op name.
+fn parse_inst(n: &str, threads: &str, imb: &str, secs: &[Vec<&str>], max_n: usize) -> Option<Inst> {
+    let n: usize = n.parse().ok()?;
+    let threads: usize = threads.parse().ok()?;
+    let imb = parse_imb(imb)?;
+    if n < 1 || n > max_n || threads < 1 || threads > 8 || secs.len() < 5 {
+        return None;
+    }
+    let indptr: Vec<usize> = nums(&secs[0])?;
+    let indices: Vec<usize> = nums(&secs[1])?;
+    let data: Vec<i64> = nums(&secs[2])?;
+    let weights: Vec<i64> = nums(&secs[3])?;
+    let parts: Vec<usize> = nums(&secs[4])?;
+    if indptr.len() != n + 1 || indptr[0] != 0 || indptr[n] != indices.len() || indices.len() != data.len() {
+        return None;
+    }
+    if indptr.windows(2).any(|w| w[0] > w[1]) {
+        return None;
+    }
+    for v in 0..n {
+        let row = &indices[indptr[v]..indptr[v + 1]];
+        if row.iter().any(|&j| j >= n) || row.windows(2).any(|w| w[0] >= w[1]) {
+            return None;
+        }
+    }
+    if data.iter().any(|w| w.abs() > 1000) {
+        return None;
+    }
+    if weights.len() != n || weights.iter().any(|&w| !(0..=1000).contains(&w)) {
+        return None;
+    }
+    if parts.len() != n || parts.iter().any(|&p| p >= 8) {
+        return None;
+    }
+    Some(Inst { n, threads, imb, indptr, indices, data, weights, parts })
+}
+
+// ------------------------------------------------------------------ scheduler
+
+thread_local! {
+    static TASK: Cell<Option<usize>> = const { Cell::new(None) };
+}
+
+struct Node {
+    enabled: Vec<(usize, Ev)>,
+    sleep: BTreeSet<usize>,
+    done: Vec<usize>,
+    chosen: usize,
+}
+
+struct Explore {
+    stack: Vec<Node>,
+    depth: usize,
+    blocked: bool,
+    reduce: bool,
+}
+
+enum Policy {
+    /// kind 0 uniform, 1 sticky, 2 round-robin-ish
+    Random { rng: Rng, kind: u8, last: Option<usize> },
+    Replay { sched: Vec<Vec<usize>>, cursor: usize, stuck: u32 },
+    Explore(Explore),
+}
+
+struct St {
+    expected: usize,
+    begun: usize,
+    ended: usize,
+    ended_set: BTreeSet<usize>,
+    waiting: BTreeMap<usize, Ev>,
+    granted: Option<usize>,
+    running: Option<usize>,
+    policy: Policy,
+    trace: Vec<(usize, Ev)>,
+    sched: Vec<Vec<usize>>,
+    anomalies: Vec<String>,
+    abort: bool,
+    t_count: usize,
+    ipt: usize,
+}
+
+const PASS: usize = usize::MAX;
+
+/// (array, index, is_write) of a pending blocking event; `None` = purely local.
+fn access(ev: &Ev) -> Option<(u8, usize, bool)> {
+    match *ev {
+        Ev::LockCas(v) => Some((0, v, true)),
+        Ev::LockStore(v, _) => Some((0, v, true)),
+        Ev::LockLoad(v) => Some((0, v, false)),
+        Ev::PartLoad(v) => Some((1, v, false)),
+        Ev::PartStore(v, _) => Some((1, v, true)),
+        _ => None,
+    }
+}
+
+fn independent(a: &Ev, b: &Ev) -> bool {
+    match (access(a), access(b)) {
+        (Some((x, i, wa)), Some((y, j, wb))) => !(x == y && i == j && (wa || wb)),
+        _ => true,
+    }
+}
+
+impl St {
+    fn anomaly(&mut self, s: &str) {
+        if self.anomalies.len() < 8 {
+            self.anomalies.push(s.to_string());
+        }
+    }
+
+    /// Choose the next task to release, if the policy can decide now.
+    fn dispatch(&mut self, force: bool) -> bool {
+        if self.granted.is_some() || self.running.is_some() || self.waiting.is_empty() {
+            return false;
+        }
+        let ready = self.waiting.len() + self.ended == self.expected
+            || (force && self.begun > 0 && self.waiting.len() + self.ended == self.begun);
+        let pass = self.sched.len().saturating_sub(1);
+        let lowest = *self.waiting.keys().next().unwrap();
+        let pick: Option<usize> = match &mut self.policy {
+            Policy::Random { rng, kind, last } => {
+                if !ready {
+                    None
+                } else {
+                    let keys: Vec<usize> = self.waiting.keys().cloned().collect();
+                    let t = match *kind {
+                        1 => match *last {
+                            Some(l) if keys.contains(&l) && rng.chance(8, 10) => l,
+                            _ => keys[rng.usize(keys.len())],
+                        },
+                        2 => {
+                            // next task after `last` in cyclic order, with a little noise
+                            if rng.chance(1, 5) {
+                                keys[rng.usize(keys.len())]
+                            } else {
+                                let l = last.unwrap_or(usize::MAX);
+                                *keys.iter().find(|&&k| l == usize::MAX || k > l).unwrap_or(&keys[0])
+                            }
+                        }
+                        _ => keys[rng.usize(keys.len())],
+                    };
+                    *last = Some(t);
+                    Some(t)
+                }
+            }
+            Policy::Replay { sched, cursor, stuck } => {
+                let list: &[usize] = sched.get(pass).map(|v| &v[..]).unwrap_or(&[]);
+                while *cursor < list.len()
+                    && (list[*cursor] >= self.expected || self.ended_set.contains(&list[*cursor]))
+                {
+                    *cursor += 1;
+                }
+                if *cursor < list.len() {
+                    let t = list[*cursor];
+                    if self.waiting.contains_key(&t) {
+                        *cursor += 1;
+                        *stuck = 0;
+                        Some(t)
+                    } else if force && ready {
+                        *stuck += 1;
+                        if *stuck > 20 {
+                            *stuck = 0;
+                            *cursor += 1;
+                            if self.anomalies.len() < 8 {
+                                self.anomalies.push("sched-stuck".into());
+                            }
+                            Some(lowest)
+                        } else {
+                            None
+                        }
+                    } else {
+                        None
+                    }
+                } else if ready {
+                    Some(lowest)
+                } else {
+                    None
+                }
+            }
+            Policy::Explore(ex) => {
+                if !ready {
+                    None
+                } else {
+                    let enabled: Vec<(usize, Ev)> = self.waiting.iter().map(|(k, e)| (*k, *e)).collect();
+                    let d = ex.depth;
+                    ex.depth += 1;
+                    if ex.blocked {
+                        Some(lowest)
+                    } else if d < ex.stack.len() {
+                        let node = &ex.stack[d];
+                        if node.enabled != enabled && self.anomalies.len() < 8 {
+                            self.anomalies.push("explore-nondeterministic-replay".into());
+                        }
+                        Some(node.chosen)
+                    } else {
+                        let sleep: BTreeSet<usize> = if !ex.reduce || d == 0 {
+                            BTreeSet::new()
+                        } else {
+                            let p = &ex.stack[d - 1];
+                            let ev_of = |t: usize| p.enabled.iter().find(|(k, _)| *k == t).map(|(_, e)| *e);
+                            let ce = ev_of(p.chosen).unwrap();
+                            p.sleep
+                                .iter()
+                                .cloned()
+                                .chain(p.done.iter().cloned())
+                                .filter(|s| match ev_of(*s) {
+                                    Some(e) => independent(&e, &ce),
+                                    None => false,
+                                })
+                                .filter(|s| enabled.iter().any(|(k, _)| k == s))
+                                .collect()
+                        };
+                        match enabled.iter().map(|(k, _)| *k).find(|k| !sleep.contains(k)) {
+                            Some(t) => {
+                                ex.stack.push(Node { enabled, sleep, done: vec![], chosen: t });
+                                Some(t)
+                            }
+                            None => {
+                                ex.blocked = true;
+                                Some(lowest)
+                            }
+                        }
+                    }
+                }
+            }
+        };
+        match pick {
+            Some(t) => {
+                self.granted = Some(t);
+                true
+            }
+            None => false,
+        }
+    }
+}
+
+type Shared = Arc<(Mutex<St>, Condvar)>;
+
+fn on_event(sh: &Shared, ev: Ev) {
+    let (m, cv) = &**sh;
+    let mut st = m.lock().unwrap();
+    if st.abort {
+        return;
+    }
+    match ev {
+        Ev::PassBegin { pass, thread_count, items_per_thread } => {
+            st.expected = thread_count;
+            st.begun = 0;
+            st.ended = 0;
+            st.ended_set.clear();
+            st.t_count = thread_count;
+            st.ipt = items_per_thread;
+            st.sched.push(vec![]);
+            st.trace.push((PASS, ev));
+            if let Policy::Replay { cursor, stuck, .. } = &mut st.policy {
+                *cursor = 0;
+                *stuck = 0;
+            }
+            if pass != st.sched.len() {
+                st.anomaly("pass-number");
+            }
+            if !st.waiting.is_empty() || st.running.is_some() {
+                st.anomaly("pass-begin-with-live-tasks");
+            }
+            return;
+        }
+        Ev::LockCasDone(..) | Ev::LockLoaded(..) | Ev::PartLoaded(..) => {
+            let me = TASK.with(|t| t.get());
+            if me.is_none() || st.running != me {
+                st.anomaly("after-event-not-running");
+            }
+            st.trace.push((me.unwrap_or(PASS - 1), ev));
+            return;
+        }
+        _ => {}
+    }
+    let me = match ev {
+        Ev::TaskBegin(c) => {
+            TASK.with(|t| t.set(Some(c)));
+            c
+        }
+        _ => match TASK.with(|t| t.get()) {
+            Some(t) => t,
+            None => {
+                st.anomaly("access-outside-task");
+                return;
+            }
+        },
+    };
+    if st.running == Some(me) {
+        st.running = None;
+    }
+    if let Ev::TaskBegin(_) = ev {
+        st.begun += 1;
+    }
+    if st.waiting.insert(me, ev).is_some() {
+        st.anomaly("task-waiting-twice");
+    }
+    if st.dispatch(false) {
+        cv.notify_all();
+    }
+    loop {
+        if st.abort {
+            return;
+        }
+        if st.granted == Some(me) {
+            break;
+        }
+        let (g, to) = cv.wait_timeout(st, Duration::from_millis(100)).unwrap();
+        st = g;
+        if to.timed_out() && !st.abort && st.granted != Some(me) && st.dispatch(true) {
+            cv.notify_all();
+        }
+    }
+    st.granted = None;
+    st.running = Some(me);
+    st.waiting.remove(&me);
+    match ev {
+        Ev::TaskBegin(_) | Ev::TaskEnd(_) | Ev::LockStore(..) | Ev::PartStore(..) => st.trace.push((me, ev)),
+        _ => {}
+    }
+    if let Some(l) = st.sched.last_mut() {
+        l.push(me);
+    } else {
+        st.anomaly("task-before-pass");
+    }
+    if let Ev::TaskEnd(_) = ev {
+        st.ended += 1;
+        st.ended_set.insert(me);
+        st.running = None;
+        TASK.with(|t| t.set(None));
+        if st.dispatch(false) {
+            cv.notify_all();
+        }
+    }
+}
+
+fn trace_string(trace: &[(usize, Ev)]) -> String {
+    use std::fmt::Write as _;
+    let mut s = String::new();
+    for (i, (t, ev)) in trace.iter().enumerate() {
+        if i > 0 {
+            s.push(' ');
+        }
+        if let Ev::PassBegin { pass, .. } = ev {
+            write!(s, "P{}", pass).unwrap();
+            continue;
+        }
+        write!(s, "{}:", t).unwrap();
+        match *ev {
+            Ev::TaskBegin(_) => s.push('B'),
+            Ev::TaskEnd(_) => s.push('E'),
+            Ev::LockCasDone(v, ok) => write!(s, "C{}{}", v, if ok { '+' } else { '-' }).unwrap(),
+            Ev::LockLoaded(v, b) => write!(s, "L{}={}", v, b as u8).unwrap(),
+            Ev::LockStore(v, b) => write!(s, "{}{}", if b { 'X' } else { 'U' }, v).unwrap(),
+            Ev::PartLoaded(v, p) => write!(s, "R{}={}", v, p).unwrap(),
+            Ev::PartStore(v, p) => write!(s, "W{}={}", v, p).unwrap(),
+            _ => s.push('?'),
+        }
+    }
+    s
+}
+
+type Md = coupe::AsMetadata;
+
+fn md_string(m: &MdVals) -> String {
+    format!(
+        "{},{},{},{},{},{},{},{},{}",
+        m.gain, m.passes, m.attempts, m.moves, m.races, m.locked, m.nogain, m.badbal, m.vpt
+    )
+}
+
+#[derive(Clone, Copy, Debug, PartialEq, Eq, PartialOrd, Ord)]
+struct MdVals {
+    gain: i64,
+    passes: usize,
+    attempts: usize,
+    moves: usize,
+    races: usize,
+    locked: usize,
+    nogain: usize,
+    badbal: usize,
+    vpt: usize,
+}
+
+fn md_vals(m: &Md) -> MdVals {
+    MdVals {
+        gain: m.edge_cut_gain,
+        passes: m.pass_count,
+        attempts: m.move_attempts,
+        moves: m.move_count,
+        races: m.race_count,
+        locked: m.locked_count,
+        nogain: m.no_gain_count,
+        badbal: m.bad_balance_count,
+        vpt: m.vertices_per_thread,
+    }
+}
+
+enum Outcome {
+    Ok(MdVals, Vec<usize>),
+    Err(String),
+    Panic(String),
+    Hang,
+}
+
+/// Run the real ArcSwap on the instance in a pool of `inst.threads` workers
+/// (helper thread + 10 s guard). `on_hang` is called when the guard fires.
+fn run_real(inst: &Inst, on_hang: impl FnOnce()) -> Outcome {
+    let (tx, rx) = mpsc::channel();
+    let i2 = inst.clone();
+    std::thread::Builder::new()
+        .stack_size(16 << 20)
+        .spawn(move || {
+            let r = catch(move || {
+                let mat: coupe::sprs::CsMat<i64> =
+                    coupe::sprs::CsMat::new((i2.n, i2.n), i2.indptr.clone(), i2.indices.clone(), i2.data.clone());
+                let mut ids = i2.parts.clone();
+                let w = i2.weights.clone();
+                let r = with_pool(i2.threads, || {
+                    coupe::ArcSwap { max_imbalance: i2.imb }.partition(&mut ids, (mat.view(), &w[..]))
+                });
+                (r, ids)
+            });
+            let _ = tx.send(r);
+        })
+        .expect("spawn");
+    let conv = |r: Caught<(Result<Md, coupe::Error>, Vec<usize>)>| match r {
+        Caught::Ok((Ok(md), ids)) => Outcome::Ok(md_vals(&md), ids),
+        Caught::Ok((Err(e), _)) => Outcome::Err(format!("{:?}", e)),
+        Caught::Panic(m) => Outcome::Panic(m),
+        Caught::Hang => Outcome::Hang,
+    };
+    match rx.recv_timeout(Duration::from_secs(10)) {
+        Ok(r) => conv(r),
+        Err(_) => {
+            on_hang();
+            match rx.recv_timeout(Duration::from_secs(5)) {
+                Ok(Caught::Panic(m)) => Outcome::Panic(m),
+                _ => Outcome::Hang,
+            }
+        }
+    }
+}
+
+struct CtlRun {
+    out: Outcome,
+    trace: Vec<(usize, Ev)>,
+    sched: Vec<Vec<usize>>,
+    anomalies: Vec<String>,
+    t_count: usize,
+    ipt: usize,
+    policy: Policy,
+}
+
+fn run_controlled(inst: &Inst, policy: Policy) -> CtlRun {
+    let sh: Shared = Arc::new((
+        Mutex::new(St {
+            expected: 0,
+            begun: 0,
+            ended: 0,
+            ended_set: BTreeSet::new(),
+            waiting: BTreeMap::new(),
+            granted: None,
+            running: None,
+            policy,
+            trace: vec![],
+            sched: vec![],
+            anomalies: vec![],
+            abort: false,
+            t_count: 0,
+            ipt: 0,
+        }),
+        Condvar::new(),
+    ));
+    let sh2 = sh.clone();
+    vh::set_observer(Some(Box::new(move |ev| on_event(&sh2, ev))));
+    let sh3 = sh.clone();
+    let out = run_real(inst, move || {
+        let (m, cv) = &*sh3;
+        m.lock().unwrap().abort = true;
+        cv.notify_all();
+    });
+    {
+        // release anything still blocked (only after a hang / panic) before taking the
+        // observer's write lock
+        let (m, cv) = &*sh;
+        let mut st = m.lock().unwrap();
+        st.abort = true;
+        cv.notify_all();
+    }
+    vh::set_observer(None);
+    let (m, _) = &*sh;
+    let mut st = m.lock().unwrap();
+    CtlRun {
+        out,
+        trace: std::mem::take(&mut st.trace),
+        sched: std::mem::take(&mut st.sched),
+        anomalies: std::mem::take(&mut st.anomalies),
+        t_count: st.t_count,
+        ipt: st.ipt,
+        policy: std::mem::replace(&mut st.policy, Policy::Replay { sched: vec![], cursor: 0, stuck: 0 }),
+    }
+}
+
+fn ids_string(ids: &[usize]) -> String {
+    ids.iter().map(|x| x.to_string()).collect::<Vec<_>>().join(",")
+}
+
+fn ctl_line(r: &CtlRun) -> String {
+    match &r.out {
+        Outcome::Ok(md, ids) => {
+            let mut s = format!(
+                "ok T={} ipt={} ids={} md={} tr={}",
+                r.t_count,
+                r.ipt,
+                ids_string(ids),
+                md_string(md),
+                trace_string(&r.trace)
+            );
+            if !r.anomalies.is_empty() {
+                s.push_str(" anomalies=");
+                s.push_str(&r.anomalies.join(";"));
+            }
+            s
+        }
+        Outcome::Err(e) => format!("err {}", e),
+        Outcome::Panic(m) => format!("panic {}", m),
+        Outcome::Hang => "hang".into(),
+    }
+}
+
+// ------------------------------------------------------------------ oracle
+
+/// floor((1+imb)·total/part_count·(1+1e-9)) computed exactly; `None` if out of range.
+fn exact_cap(imb: f64, total: i64, part_count: usize) -> Option<i64> {
+    let bits = imb.to_bits();
+    let exp = ((bits >> 52) & 0x7ff) as i64;
+    let frac = bits & ((1u64 << 52) - 1);
+    let (m, e) = if exp == 0 { (frac, -1074i64) } else { (frac | (1u64 << 52), exp - 1075) };
+    // imb = m * 2^e
+    let (num, den): (u128, u128) = if m == 0 {
+        (total as u128, part_count as u128)
+    } else if e >= 0 {
+        if e > 10 {
+            return None;
+        }
+        ((total as u128) * (1 + ((m as u128) << e)), part_count as u128)
+    } else {
+        let k = (-e) as u32;
+        if k > 64 {
+            return None;
+        }
+        ((total as u128) * ((1u128 << k) + m as u128), (part_count as u128) << k)
+    };
+    let num = num.checked_mul(1_000_000_001)?;
+    let den = den.checked_mul(1_000_000_000)?;
+    Some((num / den) as i64)
+}
+
+fn oracle(inst: &Inst, md: &MdVals, out: &[usize], trace: Option<&[(usize, Ev)]>) -> Vec<(&'static str, String)> {
+    let mut v = vec![];
+    let part_count = usize::max(2, 1 + inst.parts.iter().cloned().max().unwrap_or(0));
+    if out.len() != inst.n || out.iter().any(|&p| p >= part_count) {
+        v.push(("arcswap-invalid-id", format!("ids {:?} with {} parts", out, part_count)));
+        return v;
+    }
+    let cin = inst.cut(&inst.parts);
+    let cout = inst.cut(out);
+    if cout != cin - md.gain {
+        v.push((
+            "arcswap-cut-accounting",
+            format!("cut {} -> {} but edge_cut_gain = {}", cin, cout, md.gain),
+        ));
+    }
+    if md.gain < 0 {
+        v.push(("arcswap-negative-gain", format!("edge_cut_gain = {}", md.gain)));
+    }
+    let load = |ids: &[usize]| {
+        let mut l = vec![0i64; part_count];
+        for (i, &p) in ids.iter().enumerate() {
+            l[p] += inst.weights[i];
+        }
+        l
+    };
+    let lin = load(&inst.parts);
+    let lout = load(out);
+    let total: i64 = lin.iter().sum();
+    let cap = match inst.imb {
+        None => Some(*lin.iter().max().unwrap()),
+        Some(x) => exact_cap(x, total, part_count),
+    };
+    if let Some(cap) = cap {
+        for p in 0..part_count {
+            if lout[p] > i64::max(lin[p], cap) {
+                v.push((
+                    "arcswap-cap",
+                    format!("part {} weighs {} > max(input {}, cap {})", p, lout[p], lin[p], cap),
+                ));
+                break;
+            }
+        }
+    }
+    let relabelled = out.iter().zip(&inst.parts).filter(|(a, b)| a != b).count();
+    if md.moves < relabelled {
+        v.push(("arcswap-move-count", format!("move_count {} < {} relabelled", md.moves, relabelled)));
+    }
+    if let Some(tr) = trace {
+        // validated windows: task -> (vertex, validated?) while holding
+        let adjacent = |a: usize, b: usize| a != b && (inst.row(a).any(|(x, _)| x == b) || inst.row(b).any(|(x, _)| x == a));
+        let mut held: BTreeMap<usize, (usize, bool)> = BTreeMap::new();
+        for (t, ev) in tr {
+            match *ev {
+                Ev::PassBegin { .. } => {
+                    if !held.is_empty() {
+                        v.push(("arcswap-lock-protocol", "lock held across a pass".into()));
+                        held.clear();
+                    }
+                }
+                Ev::LockCasDone(x, true) => {
+                    if held.values().any(|(y, _)| *y == x) {
+                        v.push(("arcswap-lock-protocol", format!("two holders of lock {}", x)));
+                    }
+                    held.insert(*t, (x, false));
+                }
+                Ev::PartLoaded(x, _) => {
+                    // own part read after the neighbour-lock reads = validated
+                    let mut newly = false;
+                    if let Some(h) = held.get_mut(t) {
+                        if h.0 == x && !h.1 {
+                            h.1 = true;
+                            newly = true;
+                        }
+                    }
+                    if newly {
+                        for (t2, (y, val)) in &held {
+                            if t2 != t && *val && adjacent(x, *y) {
+                                v.push((
+                                    "arcswap-adjacent-concurrent",
+                                    format!("tasks {} and {} hold adjacent vertices {} and {} validated", t, t2, x, y),
+                                ));
+                            }
+                        }
+                    }
+                }
+                Ev::PartStore(x, _) => {
+                    match held.get(t) {
+                        Some((y, true)) if *y == x => {}
+                        _ => v.push(("arcswap-lock-protocol", format!("store to {} without validated lock", x))),
+                    }
+                    for (t2, (y, val)) in &held {
+                        if t2 != t && *val && (adjacent(x, *y) || x == *y) {
+                            v.push((
+                                "arcswap-adjacent-concurrent",
+                                format!("task {} moves {} while task {} holds neighbour {} validated", t, x, t2, y),
+                            ));
+                        }
+                    }
+                }
+                Ev::LockStore(x, false) => match held.remove(t) {
+                    Some((y, _)) if y == x => {}
+                    _ => v.push(("arcswap-lock-protocol", format!("release of {} by a non-holder", x))),
+                },
+                _ => {}
+            }
+        }
+        if !held.is_empty() {
+            v.push(("arcswap-lock-protocol", "lock held at the end".into()));
+        }
+    }
+    v.truncate(4);
+    v
+}
+
+// ------------------------------------------------------------------ run_op
 
 pub fn run_op(ctx: &mut Ctx, op: &str) {
-    ctx.record(op.to_string(), "bad-op".into(), false);
+    let secs = sections(op);
+    let head = secs[0].clone();
+    let kind = head.first().copied().unwrap_or("");
+    let inst = match (kind, head.len()) {
+        ("ctl", 4) => parse_inst(head[1], head[2], head[3], &secs[1..], 64),
+        ("free", 4) => parse_inst(head[1], head[2], head[3], &secs[1..], 4096),
+        ("seq", 3) => parse_inst(head[1], "1", head[2], &secs[1..], 64),
+        _ => None,
+    };
+    let sched: Option<Vec<Vec<usize>>> = if kind == "ctl" && secs.len() >= 6 {
+        secs[6..].iter().map(|s| nums::<usize>(s)).collect()
+    } else if secs.len() == 6 {
+        Some(vec![])
+    } else {
+        None
+    };
+    let (Some(inst), Some(sched)) = (inst, sched) else {
+        ctx.count("bad-op");
+        ctx.record(op.to_string(), "bad-op".into(), false);
+        return;
+    };
+    let sym = inst.symmetric();
+    let nontrivial = inst.cut(&inst.parts) != 0;
+    let mut verdicts: Vec<(&'static str, String)> = vec![];
+    let line;
+    match kind {
+        "ctl" => {
+            let r = run_controlled(&inst, Policy::Replay { sched, cursor: 0, stuck: 0 });
+            line = ctl_line(&r);
+            for a in &r.anomalies {
+                ctx.count(&format!("anomaly:{}", a));
+            }
+            if let Outcome::Ok(md, ids) = &r.out {
+                if sym {
+                    verdicts = oracle(&inst, md, ids, Some(&r.trace));
+                } else {
+                    ctx.count("asymmetric_graph_oracle_skipped");
+                }
+                ctx.count("ctl_runs");
+                *ctx.hist.entry("ctl_events".into()).or_insert(0) += r.trace.len() as u64;
+                let sw = r.sched.iter().map(|p| p.windows(2).filter(|w| w[0] != w[1]).count()).sum::<usize>();
+                *ctx.hist.entry("ctl_task_switches".into()).or_insert(0) += sw as u64;
+                *ctx.hist.entry("ctl_moves".into()).or_insert(0) += md.moves as u64;
+                *ctx.hist.entry("ctl_races".into()).or_insert(0) += md.races as u64;
+                *ctx.hist.entry("ctl_locked".into()).or_insert(0) += md.locked as u64;
+                *ctx.hist.entry("ctl_bad_balance".into()).or_insert(0) += md.badbal as u64;
+                if md.races > 0 {
+                    ctx.count("ctl_runs_with_race");
+                }
+                if md.locked > 0 {
+                    ctx.count("ctl_runs_with_locked");
+                }
+                if md.passes > 2 {
+                    ctx.count("ctl_runs_with_3+_passes");
+                }
+            }
+            match &r.out {
+                Outcome::Ok(..) => {}
+                Outcome::Err(e) => verdicts.push(("arcswap-unexpected-error", e.clone())),
+                Outcome::Panic(m) => verdicts.push(("panic", format!("{} [{}]", m, panic_sig(m)))),
+                Outcome::Hang => verdicts.push(("hang", "10 s guard".into())),
+            }
+        }
+        _ => {
+            let out = run_real(&inst, || {});
+            match &out {
+                Outcome::Ok(md, ids) => {
+                    line = if kind == "seq" {
+                        format!("ok ids={} md={}", ids_string(ids), md_string(md))
+                    } else {
+                        format!("free ids={} md={}", ids_string(ids), md_string(md))
+                    };
+                    if sym {
+                        verdicts = oracle(&inst, md, ids, None);
+                    } else {
+                        ctx.count("asymmetric_graph_oracle_skipped");
+                    }
+                    ctx.count(if kind == "seq" { "seq_runs" } else { "free_runs" });
+                    if kind == "free" {
+                        *ctx.hist.entry("free_races".into()).or_insert(0) += md.races as u64;
+                        *ctx.hist.entry("free_locked".into()).or_insert(0) += md.locked as u64;
+                        *ctx.hist.entry("free_moves".into()).or_insert(0) += md.moves as u64;
+                    }
+                }
+                Outcome::Err(e) => {
+                    line = format!("err {}", e);
+                    verdicts.push(("arcswap-unexpected-error", e.clone()));
+                }
+                Outcome::Panic(m) => {
+                    line = format!("panic {}", m);
+                    verdicts.push(("panic", format!("{} [{}]", m, panic_sig(m))));
+                }
+                Outcome::Hang => {
+                    line = "hang".into();
+                    verdicts.push(("hang", "10 s guard".into()));
+                }
+            }
+        }
+    }
+    let idx = ctx.record(op.to_string(), line, nontrivial);
+    for (sig, what) in verdicts {
+        ctx.fail(idx, sig, what);
+    }
+}
+
+// ------------------------------------------------------------------ generator
+
+fn add_edge(e: &mut BTreeMap<(usize, usize), i64>, a: usize, b: usize, w: i64) {
+    e.insert((a, b), w);
+    e.insert((b, a), w);
+}
+
+const GRIDS: [(usize, usize); 5] = [(2, 2), (2, 3), (3, 3), (2, 4), (2, 5)];
+
+/// Returns (n, edge set without weights yet, shape name).
+fn gen_graph(rng: &mut Rng, max_n: usize) -> (usize, Vec<(usize, usize)>, &'static str) {
+    let mut n = 2 + rng.usize(max_n - 1);
+    let mut edges = vec![];
+    let shape = match rng.usize(9) {
+        0 => {
+            for i in 0..n - 1 {
+                edges.push((i, i + 1));
+            }
+            "path"
+        }
+        1 => {
+            n = n.max(3);
+            for i in 0..n {
+                edges.push((i, (i + 1) % n));
+            }
+            "cycle"
+        }
+        2 => {
+            let (a, b) = if max_n <= 10 {
+                GRIDS[rng.usize(GRIDS.len())]
+            } else {
+                (2 + rng.usize(5), 2 + rng.usize(6))
+            };
+            n = a * b;
+            for i in 0..a {
+                for j in 0..b {
+                    if j + 1 < b {
+                        edges.push((i * b + j, i * b + j + 1));
+                    }
+                    if i + 1 < a {
+                        edges.push((i * b + j, (i + 1) * b + j));
+                    }
+                }
+            }
+            "grid"
+        }
+        3 | 4 => {
+            let p = 2 + rng.usize(6);
+            for i in 0..n {
+                for j in 0..i {
+                    if rng.chance(p as u64, 10) {
+                        edges.push((j, i));
+                    }
+                }
+            }
+            "random"
+        }
+        5 => {
+            let c = rng.usize(n);
+            for i in 0..n {
+                if i != c {
+                    edges.push((c, i));
+                }
+            }
+            "star"
+        }
+        6 => {
+            n = n.min(5);
+            for i in 0..n {
+                for j in 0..i {
+                    edges.push((j, i));
+                }
+            }
+            "complete"
+        }
+        7 => {
+            // some isolated vertices
+            for i in 0..n {
+                for j in 0..i {
+                    if i % 3 != 0 && j % 3 != 0 && rng.chance(1, 2) {
+                        edges.push((j, i));
+                    }
+                }
+            }
+            "isolated"
+        }
+        _ => {
+            n = n.max(4);
+            let h = n / 2;
+            for i in 0..h - 1 {
+                edges.push((i, i + 1));
+            }
+            for i in h..n - 1 {
+                edges.push((i, i + 1));
+            }
+            if h >= 3 && rng.chance(1, 2) {
+                edges.push((0, h - 1));
+            }
+            "two-components"
+        }
+    };
+    (n, edges, shape)
+}
+
+fn gen_inst(ctx: &mut Ctx, max_n: usize, free: bool) -> Inst {
+    let (n, el, shape) = gen_graph(&mut ctx.rng, max_n);
+    ctx.count(&format!("shape:{}", shape));
+    let mut edges = BTreeMap::new();
+    let wmode = ctx.rng.usize(100);
+    if wmode >= 97 {
+        ctx.count("negweights");
+    }
+    for (a, b) in el {
+        if a == b {
+            continue;
+        }
+        let w = if wmode < 10 {
+            1
+        } else if wmode >= 97 && ctx.rng.chance(1, 3) {
+            -ctx.rng.range(1, 2)
+        } else {
+            ctx.rng.range(1, 5)
+        };
+        add_edge(&mut edges, a, b, w);
+    }
+    if ctx.rng.chance(1, 20) {
+        ctx.count("self-loops");
+        for _ in 0..1 + ctx.rng.usize(2) {
+            let v = ctx.rng.usize(n);
+            edges.insert((v, v), ctx.rng.range(1, 5));
+        }
+    }
+    let zeros = ctx.rng.chance(1, 10);
+    let weights: Vec<i64> = (0..n)
+        .map(|_| if zeros && ctx.rng.chance(1, 3) { 0 } else { ctx.rng.range(1, 5) })
+        .collect();
+    let k = 2 + ctx.rng.usize(3);
+    ctx.count(&format!("parts:{}", k));
+    let pshape = ctx.rng.usize(20);
+    let parts: Vec<usize> = match pshape {
+        0..=6 => (0..n).map(|_| ctx.rng.usize(k)).collect(),
+        7..=11 => (0..n).map(|i| i % k).collect(),
+        12..=14 => (0..n).map(|i| (i * k / n).min(k - 1)).collect(),
+        15 => vec![ctx.rng.usize(k); n],
+        16 | 17 => {
+            let mut p = vec![0; n];
+            p[ctx.rng.usize(n)] = 1 + ctx.rng.usize(k - 1);
+            p
+        }
+        18 => (0..n).map(|i| if i % 2 == 0 { 0 } else { k }).collect(), // id `1..k` unused
+        _ => (0..n).map(|i| (i / 2) % k).collect(),
+    };
+    ctx.count(match pshape {
+        0..=6 => "pshape:random",
+        7..=11 => "pshape:striped",
+        12..=14 => "pshape:blocks",
+        15 => "pshape:all-same",
+        16 | 17 => "pshape:one-off",
+        18 => "pshape:unused-id",
+        _ => "pshape:pairs",
+    });
+    let imb = match ctx.rng.usize(20) {
+        0..=3 => None,
+        4..=6 => Some(0.0),
+        7..=9 => Some(0.1),
+        10..=15 => Some(0.5),
+        _ => Some(*ctx.rng.pick(&[0.25, 1.0, 2.0, 2.0])),
+    };
+    ctx.count(&format!("imb:{:?}", imb));
+    let threads = if free {
+        2 + ctx.rng.usize(7)
+    } else {
+        match ctx.rng.usize(20) {
+            0 | 1 => 1,
+            2 => 5 + ctx.rng.usize(4),
+            _ => 2 + ctx.rng.usize(3),
+        }
+    };
+    ctx.count(&format!("threads:{}", threads));
+    Inst::from_edges(n, threads, imb, &edges, weights, parts)
+}
+
+fn tiny(n: usize, edges: &[(usize, usize)], parts: &[usize], imb: Option<f64>) -> Inst {
+    let mut e = BTreeMap::new();
+    for &(a, b) in edges {
+        add_edge(&mut e, a, b, 1);
+    }
+    Inst::from_edges(n, 2, imb, &e, vec![1; n], parts.to_vec())
+}
+
+/// Stateless DFS over scheduler choices (sleep sets when `reduce`). Calls `f` on every
+/// complete non-redundant run; returns (runs, complete?).
+fn explore(inst: &Inst, reduce: bool, cap: usize, mut f: impl FnMut(&CtlRun)) -> (usize, usize, bool) {
+    let mut ex = Explore { stack: vec![], depth: 0, blocked: false, reduce };
+    let mut runs = 0;
+    let mut redundant = 0;
+    loop {
+        ex.depth = 0;
+        ex.blocked = false;
+        let r = run_controlled(inst, Policy::Explore(ex));
+        runs += 1;
+        let bad = !matches!(r.out, Outcome::Ok(..)) || !r.anomalies.is_empty();
+        let Policy::Explore(e2) = &r.policy else { unreachable!() };
+        if e2.blocked {
+            redundant += 1;
+        } else {
+            f(&r);
+        }
+        let Policy::Explore(e2) = r.policy else { unreachable!() };
+        ex = e2;
+        if bad {
+            return (runs, redundant, false);
+        }
+        // backtrack
+        loop {
+            let Some(top) = ex.stack.last_mut() else {
+                return (runs, redundant, true);
+            };
+            top.done.push(top.chosen);
+            let next = top
+                .enabled
+                .iter()
+                .map(|(k, _)| *k)
+                .find(|k| !top.sleep.contains(k) && !top.done.contains(k));
+            match next {
+                Some(t) => {
+                    top.chosen = t;
+                    break;
+                }
+                None => {
+                    ex.stack.pop();
+                }
+            }
+        }
+        if runs >= cap {
+            return (runs, redundant, false);
+        }
+    }
+}
+
+pub fn generate(ctx: &mut Ctx) {
+    // ---- controlled random schedules: discovery run, then recorded replay
+    let n_ctl = ctx.budget(150, 5000);
+    let mut done = 0;
+    while done < n_ctl {
+        let inst = gen_inst(ctx, 10, false);
+        for _ in 0..3 {
+            if done >= n_ctl {
+                break;
+            }
+            done += 1;
+            let kind = ctx.rng.usize(3) as u8;
+            ctx.count(["policy:uniform", "policy:sticky", "policy:round-robin"][kind as usize]);
+            let seed = ctx.rng.next();
+            let d = run_controlled(&inst, Policy::Random { rng: Rng::new(seed), kind, last: None });
+            let dline = ctl_line(&d);
+            let op = inst.ctl_op(&d.sched);
+            run_op(ctx, &op);
+            let idx = ctx.ops.len() - 1;
+            if ctx.impl_out[idx] == dline {
+                ctx.count("replay_equals_discovery");
+            } else {
+                ctx.count("replay_differs_from_discovery");
+                ctx.fail(idx, "scheduler-nondeterminism", format!("discovery run gave: {}", &dline[..dline.len().min(300)]));
+            }
+        }
+    }
+    // ---- default policy only (empty schedule) and partial schedules
+    for _ in 0..ctx.budget(20, 300) {
+        let inst = gen_inst(ctx, 10, false);
+        let sched: Vec<Vec<usize>> = (0..ctx.rng.usize(3))
+            .map(|_| (0..ctx.rng.usize(12)).map(|_| ctx.rng.usize(5)).collect())
+            .collect();
+        ctx.count("partial_schedule");
+        run_op(ctx, &inst.ctl_op(&sched));
+    }
+    // ---- sequential instance
+    for _ in 0..ctx.budget(150, 3000) {
+        let inst = gen_inst(ctx, 40, false);
+        run_op(ctx, &inst.seq_op());
+    }
+    // ---- exhaustive enumeration on tiny 2-worker instances
+    let h = Some(0.5);
+    let z = Some(0.0);
+    let big = Some(2.0);
+    let p3 = [(0, 1), (1, 2)];
+    let p4 = [(0, 1), (1, 2), (2, 3)];
+    let c4 = [(0, 1), (1, 2), (2, 3), (0, 3)];
+    let tinies: Vec<(&str, Inst)> = vec![
+        ("edge-01", tiny(2, &[(0, 1)], &[0, 1], None)),
+        ("edge-01-imb2", tiny(2, &[(0, 1)], &[0, 1], big)),
+        ("path3-010-imb2", tiny(3, &p3, &[0, 1, 0], big)),
+        ("path3-012-imb2", tiny(3, &p3, &[0, 1, 2], big)),
+        ("path4-0101-imb2", tiny(4, &p4, &[0, 1, 0, 1], big)),
+        ("path4-0110-imb2", tiny(4, &p4, &[0, 1, 1, 0], big)),
+        ("path4-0120-imb2", tiny(4, &p4, &[0, 1, 2, 0], big)),
+        ("cycle4-0101-imb2", tiny(4, &c4, &[0, 1, 0, 1], big)),
+        ("cycle4-0011-imb2", tiny(4, &c4, &[0, 0, 1, 1], big)),
+        ("k4-0101-imb2", tiny(4, &[(0, 1), (0, 2), (0, 3), (1, 2), (1, 3), (2, 3)], &[0, 1, 0, 1], big)),
+        ("star4-0111-imb2", tiny(4, &[(0, 1), (0, 2), (0, 3)], &[0, 1, 1, 1], big)),
+        ("star4-c2-1011-imb2", tiny(4, &[(0, 2), (1, 2), (2, 3)], &[1, 0, 1, 1], big)),
+        ("edge-01-imb.5", tiny(2, &[(0, 1)], &[0, 1], h)),
+        ("path3-010", tiny(3, &[(0, 1), (1, 2)], &[0, 1, 0], None)),
+        ("path3-010-imb.5", tiny(3, &[(0, 1), (1, 2)], &[0, 1, 0], h)),
+        ("path3-011-imb0", tiny(3, &[(0, 1), (1, 2)], &[0, 1, 1], z)),
+        ("path3-012-imb.5", tiny(3, &[(0, 1), (1, 2)], &[0, 1, 2], h)),
+        ("path4-0101-imb.5", tiny(4, &[(0, 1), (1, 2), (2, 3)], &[0, 1, 0, 1], h)),
+        ("path4-0011", tiny(4, &[(0, 1), (1, 2), (2, 3)], &[0, 0, 1, 1], None)),
+        ("path4-0110-imb.5", tiny(4, &[(0, 1), (1, 2), (2, 3)], &[0, 1, 1, 0], h)),
+        ("cycle4-0110-imb.5", tiny(4, &[(0, 1), (1, 2), (2, 3), (0, 3)], &[0, 1, 1, 0], h)),
+        ("cycle4-0101", tiny(4, &[(0, 1), (1, 2), (2, 3), (0, 3)], &[0, 1, 0, 1], None)),
+        ("tri-pendant-0102-imb.5", tiny(4, &[(0, 1), (1, 2), (0, 2), (2, 3)], &[0, 1, 0, 2], h)),
+        ("triangle-011-imb.5", tiny(3, &[(0, 1), (1, 2), (0, 2)], &[0, 1, 1], h)),
+    ];
+    let total_cap = ctx.budget(2500, 150000);
+    let per_inst = ctx.budget(200, 20000);
+    let mut total = 0usize;
+    let (mut full, mut trunc, mut redundant_total) = (0, 0, 0);
+    for (name, inst) in &tinies {
+        if total >= total_cap {
+            trunc += 1;
+            continue;
+        }
+        let cap = per_inst.min(total_cap - total);
+        let mut recs: Vec<(String, String, Vec<(usize, Ev)>, MdVals, Vec<usize>)> = vec![];
+        let reduce = !name.starts_with("edge-01");
+        let (runs, red, complete) = explore(inst, reduce, cap, |r| {
+            if let Outcome::Ok(md, ids) = &r.out {
+                recs.push((inst.ctl_op(&r.sched), ctl_line(r), r.trace.clone(), *md, ids.clone()));
+            } else {
+                recs.push((inst.ctl_op(&r.sched), ctl_line(r), vec![], MdVals { gain: 0, passes: 0, attempts: 0, moves: 0, races: 0, locked: 0, nogain: 0, badbal: 0, vpt: 0 }, vec![]));
+            }
+        });
+        total += runs;
+        redundant_total += red;
+        if complete {
+            full += 1;
+        } else {
+            trunc += 1;
+        }
+        *ctx.hist.entry(format!("exhaustive:{}{}{}", name, if reduce { "" } else { "(all schedules, no reduction)" }, if complete { "" } else { "(truncated)" })).or_insert(0) +=
+            recs.len() as u64;
+        for (k, (op, line, trace, md, ids)) in recs.into_iter().enumerate() {
+            ctx.count("exhaustive_schedules");
+            if k % 200 == 0 {
+                // spot check: replaying the recorded op reproduces the same line
+                run_op(ctx, &op);
+                let idx = ctx.ops.len() - 1;
+                ctx.count("exhaustive_replay_checked");
+                if ctx.impl_out[idx] != line {
+                    ctx.fail(idx, "scheduler-nondeterminism", format!("exploration run gave: {}", &line[..line.len().min(300)]));
+                }
+                continue;
+            }
+            let nontrivial = inst.cut(&inst.parts) != 0;
+            let bad = !line.starts_with("ok ") || line.contains(" anomalies=");
+            let idx = ctx.record(op, line, nontrivial);
+            if bad {
+                ctx.fail(idx, "explore-run-failed", ctx.impl_out[idx].chars().take(200).collect());
+            } else {
+                for (sig, what) in oracle(inst, &md, &ids, Some(&trace)) {
+                    ctx.fail(idx, sig, what);
+                }
+            }
+        }
+    }
+    // reduction cross-check on the smallest instance: same outcome set with and without sleep sets
+    {
+        let inst = &tinies[0].1;
+        let cap = ctx.budget(200, 20000);
+        let mut a = BTreeSet::new();
+        let mut b = BTreeSet::new();
+        let (r1, _, c1) = explore(inst, true, cap, |r| {
+            if let Outcome::Ok(md, ids) = &r.out {
+                a.insert((ids.clone(), *md));
+            }
+        });
+        let (r2, _, c2) = explore(inst, false, cap, |r| {
+            if let Outcome::Ok(md, ids) = &r.out {
+                b.insert((ids.clone(), *md));
+            }
+        });
+        *ctx.hist.entry("exhaustive_crosscheck_reduced_runs".into()).or_insert(0) += r1 as u64;
+        *ctx.hist.entry("exhaustive_crosscheck_full_runs".into()).or_insert(0) += r2 as u64;
+        if c1 && c2 {
+            if a == b {
+                ctx.count("exhaustive_full_vs_reduced_equal");
+            } else {
+                let idx = ctx.record(inst.ctl_op(&[]), "explore-crosscheck".into(), false);
+                ctx.fail(idx, "explore-reduction-unsound", format!("{} outcomes with sleep sets, {} without", a.len(), b.len()));
+            }
+        } else if c1 && a.is_superset(&b) {
+            ctx.count("exhaustive_full_truncated_subset_of_reduced");
+        } else if c1 {
+            let idx = ctx.record(inst.ctl_op(&[]), "explore-crosscheck".into(), false);
+            ctx.fail(idx, "explore-reduction-unsound", "an outcome of the unreduced search is missing from the reduced one".into());
+        }
+    }
+    ctx.notes.push(format!(
+        "exhaustive: {} tiny 2-worker instances (n <= 4) fully enumerated up to commutation of independent accesses (sleep sets), {} instances truncated at the cap; {} runs, {} of them redundant (sleep-set blocked, not recorded)",
+        full, trunc, total, redundant_total
+    ));
+    // ---- free-running threads, oracle only
+    for _ in 0..ctx.budget(2000, 30000) {
+        let inst = gen_inst(ctx, 64, true);
+        run_op(ctx, &inst.free_op());
+    }
+    // ---- malformed stream
+    for k in 0..ctx.budget(30, 200) {
+        let mut inst = gen_inst(ctx, 6, false);
+        let mut sched = String::new();
+        let mut n_tok = inst.n.to_string();
+        let mut th_tok = inst.threads.to_string();
+        let mut imb_tok = inst.imb_tok();
+        match k % 10 {
+            0 => inst.parts.pop().map(|_| ()).unwrap_or(()),
+            1 => inst.weights.push(1),
+            2 => {
+                if !inst.indices.is_empty() {
+                    inst.indices[0] = inst.n
+                } else {
+                    inst.indptr.push(0)
+                }
+            }
+            3 => n_tok = "0".into(),
+            4 => th_tok = "0".into(),
+            5 => imb_tok = "zz".into(),
+            6 => {
+                if inst.indices.len() >= 2 {
+                    inst.indices.swap(0, 1);
+                    if inst.indptr[1] < 2 {
+                        inst.indptr[1] = 2.min(inst.indices.len());
+                        for i in 2..inst.indptr.len() {
+                            inst.indptr[i] = inst.indptr[i].max(inst.indptr[1]);
+                        }
+                    }
+                } else {
+                    inst.parts[0] = 9
+                }
+            }
+            7 => inst.weights[0] = -1,
+            8 => sched = " ; 0 x 1".into(),
+            _ => imb_tok = format!("{:x}", f64::NAN.to_bits()),
+        }
+        ctx.count("malformed");
+        let op = norm(&format!("ctl {} {} {} {}{}", n_tok, th_tok, imb_tok, inst.body(), sched));
+        run_op(ctx, &op);
+    }
 }
